@@ -374,7 +374,7 @@ func TestC21(t *testing.T) {
 	n := stats.N(300, 800)
 	st.Set("requested_checks", n)
 	stats.Check(t, n, 21, func(rt *rapid.T) {
-		w, l, _ := RunHistory(rt, st, HistOpts{Focus: []string{"C21"}, Features: GenFeatures, Steps: 28, Scripts: false, Reverts: true, Metadata: true, MaxPostings: 3})
+		w, l, _ := RunHistory(rt, st, HistOpts{Focus: []string{"C21"}, Features: GenFeatures, Steps: 28, Scripts: false, Reverts: true, Metadata: true, MaxPostings: 3, SecondLedger: true})
 		defer w.Close()
 		for i := 0; i < 8; i++ {
 			res, pages := w.checkPagination(rt, l)
